@@ -37,13 +37,13 @@ type Node struct {
 	Kids  []*Node // constructed content
 }
 
-func Seq(kids ...*Node) *Node  { return &Node{Class: Univ, Cons: true, Tag: TagSeq, Kids: kids} }
-func Set(kids ...*Node) *Node  { return &Node{Class: Univ, Cons: true, Tag: TagSet, Kids: kids} }
-func Str(s string) *Node       { return &Node{Class: Univ, Tag: TagOct, Val: []byte(s)} }
-func Bytes(b []byte) *Node     { return &Node{Class: Univ, Tag: TagOct, Val: b} }
-func Int(v int64) *Node        { return &Node{Class: Univ, Tag: TagInt, Val: EncInt(v)} }
-func Enum(v int64) *Node       { return &Node{Class: Univ, Tag: TagEnum, Val: EncInt(v)} }
-func Null() *Node              { return &Node{Class: Univ, Tag: TagNull} }
+func Seq(kids ...*Node) *Node      { return &Node{Class: Univ, Cons: true, Tag: TagSeq, Kids: kids} }
+func Set(kids ...*Node) *Node      { return &Node{Class: Univ, Cons: true, Tag: TagSet, Kids: kids} }
+func Str(s string) *Node           { return &Node{Class: Univ, Tag: TagOct, Val: []byte(s)} }
+func Bytes(b []byte) *Node         { return &Node{Class: Univ, Tag: TagOct, Val: b} }
+func Int(v int64) *Node            { return &Node{Class: Univ, Tag: TagInt, Val: EncInt(v)} }
+func Enum(v int64) *Node           { return &Node{Class: Univ, Tag: TagEnum, Val: EncInt(v)} }
+func Null() *Node                  { return &Node{Class: Univ, Tag: TagNull} }
 func CtxP(tag int, v []byte) *Node { return &Node{Class: Ctx, Tag: tag, Val: v} }
 func CtxC(tag int, kids ...*Node) *Node {
 	return &Node{Class: Ctx, Cons: true, Tag: tag, Kids: kids}
